@@ -2,7 +2,7 @@
 covered by (i) fragment theorems where they exist and (ii) the property evaluated on the implementation (search/sampling)."""
 import os, random
 import vlib, gens
-from vlib import hexs
+from vlib import hexs, unhex
 from props_tree import gen_check, tree_correspondence, run_oracle
 
 
@@ -346,6 +346,8 @@ def sampled(res, st, std_coq, extra_vo=()):
         cases += [(e, s) for s in gens.regression(pid)]
     report_oracle(res, pid, cases, ORACLE_WHAT[pid])
     res.add_cases(len(cases), len(set(cases)), [gens.case_lines(cases[:1]).strip()[:200], gens.case_lines(cases[-1:]).strip()[:200]])
+    if have and pid == "C16":
+        respell_fragment(res, rnd, q)
     if have and pid in ("C05", "C06", "C08"):
         # the theorems are about Parse/ExprModel.v: tie it to ParseExpr (full trees, every position) and evaluate the theorems'
         # hypothesis input_okb on every token list the real lexer produced
@@ -436,6 +438,43 @@ def frag_correspondence(res, inputs, label):
                    not bad, "\n".join("%r\n go:    %s\n model: %s" % b for b in bad[:3]))
     res.extra.setdefault("fragment_correspondence", []).append(dict(st, label=label, inputs=len(inputs), disagreements=len(bad)))
     return st, bad
+
+
+def respell_fragment(res, rnd, q):
+    """C16 on the expression fragment: (1) the model the theorems are about is ParseExpr on the sampled inputs AND on their re-spellings,
+    (2) the theorems' hypothesis (same_tokens_ci, decidable) holds between the real lexer's token list of each input and of each
+    re-spelling produced by the harness (trivia forms, keyword case, pseudo-keyword case)"""
+    g = gens.G(rnd, gens.gen_keywords())
+    xs = []
+    for _ in range(2500 if q else 50000):
+        xs.append(gens.t_spell(gens.random_op_tree(rnd, rnd.randrange(1, 6))).encode())
+    for _ in range(2500 if q else 50000):
+        xs.append(g.expr().encode())
+    xs += [b"a[OFFSET(1)]", b"a[safe_ordinal(x)].b", b"NOT a IS NOT NULL", b"x NOT BETWEEN 1 AND -2", b"(1, 'a', b'c')", b"a.b.c[0] IN UNNEST(@p)",
+           b"-+-1 || ~x", b"TRUE AND FALSE OR NULL", b"a NOT LIKE r'x'"]
+    xs = sorted(set(xs))
+    inp = "\n".join(hexs(x) for x in xs) + "\n"
+    pairs = [l.split() for l in vlib.run_lines(vlib.HARNESS, ["expr-respell"], inp)]
+    ys = sorted(set(unhex(p[1]) for p in pairs))
+    frag_correspondence(res, ys, "re-spelled expressions")
+    allstr = sorted(set([unhex(p[0]) for p in pairs] + ys))
+    toks = dict(zip([hexs(s) for s in allstr],
+                    [l.split(" => ", 1)[1] for l in vlib.run_lines(vlib.HARNESS, ["expr-toks"], "\n".join(hexs(s) for s in allstr) + "\n")]))
+    lines = [toks[p[0]] + " | " + toks[p[1]] for p in pairs if toks[p[0]] != "LEXERR" and toks[p[1]] != "LEXERR"]
+    out = vlib.run_lines(vlib.DRIVER, ["expr-sim"], "\n".join(lines) + "\n")
+    from collections import Counter
+    cnt = Counter(out)
+    bad = [(p, o) for p, o in zip([p for p in pairs if toks[p[0]] != "LEXERR" and toks[p[1]] != "LEXERR"], out) if o not in ("SAME", "SAME-CI")]
+    lexerr = [p for p in pairs if toks[p[1]] == "LEXERR"]
+    for p in lexerr[:3]:
+        res.violation("a re-spelling of an accepted expression does not lex", {"kind": "c16-respell-lex", "input_hex": p[0], "respelled_hex": p[1]})
+    for (p, o) in bad[:3]:
+        res.violation("re-spelling trivia / keyword case changes the token kinds or values seen by the parser",
+                      {"kind": "c16-respell-tokens", "input_hex": p[0], "respelled_hex": p[1], "verdict": o})
+    res.obligation("hypothesis of the C16 theorems (same_tokens_ci) holds on %d (input, re-spelling) pairs from the real lexer" % len(lines),
+                   not bad and not lexerr, str(bad[:2]))
+    res.extra["respell_fragment"] = {"inputs": len(xs), "accepted_pairs": len(pairs), "verdicts": dict(cnt)}
+    res.add_cases(len(pairs), len(set(p[1] for p in pairs)), [])
 
 
 def frag_inputs(rnd, q):
